@@ -129,6 +129,77 @@ Fixpoint spec_ok (fuel : nat) (p : parser) (lv : level) (cfg : ns) : bool :=
      else true)
   end.
 
+(* ---------- when a parse MUST succeed ----------
+   "if none can be determined and a subcommand is required, parsing fails" - and only then, as far as
+   selection goes: when every source is clean (only declared options with int values, only declared
+   subcommand names, sections only for declared subcommands, --cfg only where declared) and, along the
+   selected path, every level either has a determinable choice (select, sources mixed across levels
+   as they come) or is optional, the parse has to be accepted.  A sufficient condition only: inputs
+   that are not clean demand nothing. *)
+Definition declared_opt (p : parser) (k : str) : bool := mem_str k (map fst (p_opts p)).
+
+Fixpoint cfg_clean (fuel : nat) (p : parser) (c : cobj) : bool :=
+  match fuel with
+  | O => false
+  | S f =>
+    forallb (fun kv =>
+      let k := fst kv in
+      if declared_opt p k then match snd kv with CInt _ => true | _ => false end
+      else if p_has p && str_eqb k (p_dest p)
+           then match snd kv with CStr s => mem_str s (p_names p) | _ => false end
+      else if p_has p
+           then match assoc k (p_choices p), snd kv with
+                | Some sp, CObj l => cfg_clean f sp l
+                | _, _ => false
+                end
+      else false) c
+  end.
+
+Fixpoint argv_clean (fuel : nat) (p : parser) (a : argvt) : bool :=
+  match fuel with
+  | O => false
+  | S f =>
+    let 'ArgvT items sub := a in
+    forallb (fun i => match i with
+                      | IOpt k _ => declared_opt p k
+                      | ICfg c => p_cfg p && cfg_clean fuel p c
+                      end) items
+    && match sub with
+       | None => true
+       | Some (n, rest) => p_has p && match assoc n (p_choices p) with
+                                      | Some sp => argv_clean f sp rest
+                                      | None => false
+                                      end
+       end
+  end.
+
+Definition input_clean (fuel : nat) (p : parser) (x : input) : bool :=
+  (match i_entry x with
+   | EArgs a => argv_clean fuel p a
+   | EObject c => cfg_clean fuel p c
+   | EString c => cfg_clean fuel p c
+   | EEnv m => cfg_clean fuel p m
+   end)
+  && match i_env x with Some e => cfg_clean fuel p e | None => true end.
+
+Fixpoint determinable (fuel : nat) (p : parser) (lv : level) : bool :=
+  match fuel with
+  | O => false
+  | S f =>
+    if p_has p then
+      match select p lv with
+      | Some n => match assoc n (p_choices p) with
+                  | Some sp => determinable f sp (sub_level lv n)
+                  | None => false
+                  end
+      | None => negb (p_req p)
+      end
+    else true
+  end.
+
+Definition must_succeed (fuel : nat) (p : parser) (x : input) : bool :=
+  input_clean fuel p x && determinable fuel p (top_level x).
+
 (* ---------- the shape part alone (what theorem one_selected proves for every input) ---------- *)
 Fixpoint selected (fuel : nat) (p : parser) (cfg : ns) : bool :=
   match fuel with
